@@ -5,6 +5,7 @@ xfrm.py / netlink.py.
 """
 import ipaddress
 import socket
+import os
 import struct
 
 NLMSG_ERROR = 2
@@ -236,8 +237,15 @@ class ModelKernel:
         """the k-th (0-based) request from now fails with errno"""
         self.fail_plan[len(self.log) + k] = errno
 
+    def sock_fail_next(self, k, errno):
+        """the k-th (0-based) request from now never reaches the kernel: the netlink socket raises OSError(errno)"""
+        self.fail_plan[len(self.log) + k] = -errno
+
     def request(self, data, portid=None):
         idx = len(self.log)
+        if self.fail_plan.get(idx, 0) < 0:
+            errno = -self.fail_plan.pop(idx)
+            raise OSError(errno, 'netlink socket: ' + os.strerror(errno))
         try:
             req = decode_request(data)
         except (ValueError, struct.error) as ex:
